@@ -25,6 +25,7 @@ import (
 
 	"mellium.im/xmlstream"
 	"mellium.im/xmpp"
+	"mellium.im/xmpp/stanza"
 
 	"mellium.im/xmpp/verifharness/core"
 	"mellium.im/xmpp/verifharness/sess"
@@ -131,7 +132,10 @@ func compare(rec *opRec, got *xmltree.Node, streamNS string, s2s bool, local str
 // partialForms are calls that fail (or are abandoned) in the middle of their
 // element.
 var partialForms = []string{"Send:reader-fails", "SendElement:payload-reader-fails", "Encode:xmlstream.Marshaler-fails", "Encode:xmlstream.WriterTo-fails", "TokenWriter:closed-mid-element",
-	"Send:reader-ends-with-element-open", "SendElement:payload-ends-with-element-open", "Send:context-ends-while-write-blocked"}
+	"Send:reader-ends-with-element-open", "SendElement:payload-ends-with-element-open", "Send:context-ends-while-write-blocked",
+	// the caller's reader panics in mid-element and the application recovers
+	// (worker isolation), then goes on using the session
+	"Send:reader-panics", "SendElement:payload-reader-panics", "SendIQ:reader-panics", "EncodeIQElement:marshaler-panics", "Encode:xmlstream.Marshaler-panics", "Encode:xmlstream.WriterTo-panics"}
 
 var errPartial = errors.New("verif: injected failure in mid-element")
 
@@ -147,6 +151,45 @@ func (f *failingReader) Token() (xml.Token, error) {
 	t := f.toks[0]
 	f.toks = f.toks[1:]
 	return t, nil
+}
+
+// panickingReader returns toks and then panics with errPartial.
+type panickingReader struct {
+	toks []xml.Token
+}
+
+func (f *panickingReader) Token() (xml.Token, error) {
+	if len(f.toks) == 0 {
+		panic(errPartial)
+	}
+	t := f.toks[0]
+	f.toks = f.toks[1:]
+	return t, nil
+}
+
+type panickingMarshaler struct{ toks []xml.Token }
+
+func (f panickingMarshaler) TokenReader() xml.TokenReader { return &panickingReader{toks: f.toks} }
+
+type panickingWriterTo struct{ toks []xml.Token }
+
+func (f panickingWriterTo) WriteXML(w xmlstream.TokenWriter) (int, error) {
+	return xmlstream.Copy(w, &panickingReader{toks: f.toks})
+}
+
+// recovered runs f and turns the injected panic (and only that one) into the
+// injected error, the way an application that isolates its workers would.
+func recovered(f func() error) (err error) {
+	defer func() {
+		if v := recover(); v != nil {
+			if v == errPartial {
+				err = errPartial
+				return
+			}
+			panic(v)
+		}
+	}()
+	return f()
 }
 
 type failingMarshaler struct{ toks []xml.Token }
@@ -177,6 +220,32 @@ func doPartial(s *xmpp.Session, form string) error {
 		return s.Send(ctx, reader(whole))
 	case "SendElement:payload-ends-with-element-open":
 		return s.SendElement(ctx, reader(inner), start)
+	case "Send:reader-panics":
+		return recovered(func() error { return s.Send(ctx, &panickingReader{toks: whole}) })
+	case "SendElement:payload-reader-panics":
+		return recovered(func() error { return s.SendElement(ctx, &panickingReader{toks: inner}, start) })
+	case "SendIQ:reader-panics":
+		iq := xml.StartElement{Name: xml.Name{Local: "iq"}, Attr: []xml.Attr{attr(markAtt, "partial"), attr("type", "get"), attr("id", "partial-iq")}}
+		return recovered(func() error {
+			rc, err := s.SendIQ(ctx, &panickingReader{toks: append([]xml.Token{iq}, inner...)})
+			if rc != nil {
+				rc.Close()
+			}
+			return err
+		})
+	case "EncodeIQElement:marshaler-panics":
+		return recovered(func() error {
+			marked := append([]xml.Token{xml.StartElement{Name: body.Name, Attr: []xml.Attr{attr(markAtt, "partial")}}}, inner[1:]...)
+			rc, err := s.EncodeIQElement(ctx, panickingMarshaler{marked}, stanza.IQ{Type: stanza.ResultIQ, ID: "partial-iq"})
+			if rc != nil {
+				rc.Close()
+			}
+			return err
+		})
+	case "Encode:xmlstream.Marshaler-panics":
+		return recovered(func() error { return s.Encode(ctx, panickingMarshaler{whole}) })
+	case "Encode:xmlstream.WriterTo-panics":
+		return recovered(func() error { return s.Encode(ctx, panickingWriterTo{whole}) })
 	case "Encode:xmlstream.Marshaler-fails":
 		return s.Encode(ctx, failingMarshaler{whole})
 	case "Encode:xmlstream.WriterTo-fails":
@@ -828,7 +897,7 @@ func trunc(s string) string {
 
 // Prop returns the C05 check.
 func Prop() *core.Prop {
-	req := []string{"histories", "histories_with_transmits_racing_close", "C10/transmits_overlapping_a_close", "sessions_from_the_default_negotiator", "s2s_sessions_whose_peer_header_omits_to", "received_sessions_from_the_default_negotiator", "received_s2s_sessions_from_the_default_negotiator", "stanzas_in_raw_token_form_unresolved_name_plus_xmlns_attribute", "histories_with_partial_failure", "partial:Send:reader-fails", "partial:SendElement:payload-reader-fails", "partial:Encode:xmlstream.Marshaler-fails", "partial:Encode:xmlstream.WriterTo-fails", "partial:TokenWriter:closed-mid-element", "partial:Send:reader-ends-with-element-open", "partial:SendElement:payload-ends-with-element-open", "partial:Send:context-ends-while-write-blocked", "component_streams", "invalid_argument_calls", "incoming_stanzas_nobody_answers", "handler_replies_after_refused_writes", "handler_replies_abandoned_in_mid_element", "handlers_that_abandon_another_element_and_leave_the_reply_to_the_session", "calls_overlapping_another_actor", "elements_spanning_several_writes", "auto_replies", "wire_stanzas"}
+	req := []string{"histories", "histories_with_transmits_racing_close", "C10/transmits_overlapping_a_close", "sessions_from_the_default_negotiator", "s2s_sessions_whose_peer_header_omits_to", "received_sessions_from_the_default_negotiator", "received_s2s_sessions_from_the_default_negotiator", "stanzas_in_raw_token_form_unresolved_name_plus_xmlns_attribute", "histories_with_partial_failure", "partial:Send:reader-fails", "partial:SendElement:payload-reader-fails", "partial:Encode:xmlstream.Marshaler-fails", "partial:Encode:xmlstream.WriterTo-fails", "partial:TokenWriter:closed-mid-element", "partial:Send:reader-ends-with-element-open", "partial:SendElement:payload-ends-with-element-open", "partial:Send:context-ends-while-write-blocked", "partial:Encode:xmlstream.WriterTo-panics", "partial:Encode:xmlstream.Marshaler-panics", "partial:EncodeIQElement:marshaler-panics", "partial:SendIQ:reader-panics", "partial:SendElement:payload-reader-panics", "partial:Send:reader-panics", "component_streams", "invalid_argument_calls", "incoming_stanzas_nobody_answers", "handler_replies_after_refused_writes", "handler_replies_abandoned_in_mid_element", "handlers_that_abandon_another_element_and_leave_the_reply_to_the_session", "calls_overlapping_another_actor", "elements_spanning_several_writes", "auto_replies", "wire_stanzas"}
 	for _, e := range []string{"Send", "SendElement", "Encode", "EncodeElement", "TokenWriter", "HandlerReply",
 		"SendIQ", "SendIQElement", "EncodeIQ", "EncodeIQElement", "UnmarshalIQ", "UnmarshalIQElement", "IterIQ", "IterIQElement",
 		"SendMessage", "SendMessageElement", "EncodeMessage", "EncodeMessageElement",
